@@ -22,6 +22,12 @@ Cat12 == <<
     R(M1("E", 1), M1("E", 2)),                      \* 10  E -> 2 E
     R(M2("C", 1, "D", 1), M1("E", 1)),              \* 11  C + D -> E
     R(M2("B", 1, "E", 1), M2("A", 1, "E", 1)) >>    \* 12  B + E -> A + E
+(* two more reactions with inactive parts, for the graph-export slice *)
+RI(re, pr, ire, ipr) == [reac |-> re, prod |-> pr, ireac |-> ire, iprod |-> ipr]
+Cat14 == Cat12 \o <<
+    RI(M1("A", 1), M1("B", 1), M1("C", 1), <<>>),   \* 13  A + (C) -> B
+    RI(M1("D", 1), M1("E", 1), <<>>, M1("E", 1)) >> \* 14  D -> E + (E)
+Q_Dot == {"graph", "dot"}
 Cat6 == <<Cat12[1], Cat12[2], Cat12[3], Cat12[5], Cat12[6], Cat12[10]>>
 NoComp == <<>>
 
